@@ -184,6 +184,35 @@ pub fn run(ctx: &Ctx) -> Report {
     for big in [86400i128, -86400, 365 * 86400, -365 * 86400, 3600, -3600, 901, -901] {
         offsets.push(big * 1_000_000_000);
     }
+    // distances at the edges of the integer types a difference of two instants may pass through: +-2^31 .. 2^36
+    // seconds, multiples of 2^32 seconds, +-2^63 and 2^64 nanoseconds, each exactly and up to 901 s to either side
+    // (as far as the year stays within 1..9999)
+    {
+        let mut wide: Vec<i128> = Vec::new();
+        for k in 31..=36u32 {
+            wide.push((1i128 << k) * 1_000_000_000);
+        }
+        for m in [2i128, 3] {
+            wide.push(m * (1i128 << 32) * 1_000_000_000);
+        }
+        wide.push(1i128 << 63);
+        wide.push(1i128 << 64);
+        wide.push((1i128 << 31) * 1_000_000); // 2^31 milliseconds
+        wide.push((1i128 << 32) * 1_000_000);
+        wide.push((1i128 << 53) * 1_000); // 2^53 microseconds
+        for w in wide {
+            for sign in [1i128, -1] {
+                for d in [-901i128, -900, -899, -1, 0, 1, 899, 900, 901] {
+                    let off = sign * w + d * 1_000_000_000;
+                    let secs = off.div_euclid(1_000_000_000);
+                    // 2015 + distance within years 2 .. 9998
+                    if secs > -63_500_000_000 && secs < 251_900_000_000 {
+                        offsets.push(off);
+                    }
+                }
+            }
+        }
+    }
     let n_serv = if thorough { servers.len() } else { 3 } as u64;
     let n_rend: u64 = if thorough { 17 } else { 6 };
     let rend_pick: Vec<u64> = if thorough { (0..13).chain(14..17).chain([13]).collect() } else { vec![0, 2, 6, 9, 14, 15] };
@@ -349,7 +378,7 @@ pub fn run(ctx: &Ctx) -> Report {
     Report {
         stats: st,
         rule: format!(
-            "{} server instants (plain, +1 ns, +999999999 ns, leap day, month/year/day boundaries) x {} offsets request-server (every whole second in [-1200 s, +1200 s]; +-1, 2, 1000 ns, 1 ms, 999999999 ns around both bounds; {} millisecond points within +-2 s of both bounds; +-1 h, 1 day, 1 year, 901 s) x {} renderings (basic/extended Z, +05:30, -08:00, +14:00, -12:00, 9/12-digit fractions with '.' and ',', fractions of 20, 49 and 309 digits, +-00:01, -09:30, +12:45, -0000) x carrier x {} lifetime decorations (none, or X-Amz-Expires = 60 .. 604800 s as a signed query parameter / signed header next to an Expires header) x session token present or not; every request freshly and correctly signed (scope date = UTC date of its instant). Oracle: Ok iff |t - now| <= 900 s at nanosecond resolution; otherwise SignatureDoesNotMatch/403 with an empty provider log; (2) every sequence of 1..2 (thorough 3) operations {{prevalidate, validate_signature, validate_signature on a clone}} x 3 configurations (the request's own scope, another service, a 5-minute window) x 5 server clocks (0, +900, +901, -901, +960 s) on one authenticator object built through the unstable API from a valid request, on both carriers, each operation judged alone; (3) every ordered pair of requests validated one after the other on one thread whose date texts share the wall-clock digits (basic / extended) and a fraction of 0, 9, 21 or 40 zero digits ('.' or ',') and differ in the zone designator (Z, +00:00, +05:00, -05:00, +0010, -00:14: instants up to five hours apart), the second judged as if alone. states = (inside, side, stage)",
+            "{} server instants (plain, +1 ns, +999999999 ns, leap day, month/year/day boundaries) x {} offsets request-server (every whole second in [-1200 s, +1200 s]; +-1, 2, 1000 ns, 1 ms, 999999999 ns around both bounds; {} millisecond points within +-2 s of both bounds; +-1 h, 1 day, 1 year, 901 s; and the distances +-2^31 .. 2^36 s, 2 and 3 times 2^32 s, 2^63 and 2^64 ns, 2^31 and 2^32 ms, 2^53 us, each exactly and 1 / 899 / 900 / 901 s to either side) x {} renderings (basic/extended Z, +05:30, -08:00, +14:00, -12:00, 9/12-digit fractions with '.' and ',', fractions of 20, 49 and 309 digits, +-00:01, -09:30, +12:45, -0000) x carrier x {} lifetime decorations (none, or X-Amz-Expires = 60 .. 604800 s as a signed query parameter / signed header next to an Expires header) x session token present or not; every request freshly and correctly signed (scope date = UTC date of its instant). Oracle: Ok iff |t - now| <= 900 s at nanosecond resolution; otherwise SignatureDoesNotMatch/403 with an empty provider log; (2) every sequence of 1..2 (thorough 3) operations {{prevalidate, validate_signature, validate_signature on a clone}} x 3 configurations (the request's own scope, another service, a 5-minute window) x 5 server clocks (0, +900, +901, -901, +960 s) on one authenticator object built through the unstable API from a valid request, on both carriers, each operation judged alone; (3) every ordered pair of requests validated one after the other on one thread whose date texts share the wall-clock digits (basic / extended) and a fraction of 0, 9, 21 or 40 zero digits ('.' or ',') and differ in the zone designator (Z, +00:00, +05:00, -05:00, +0010, -00:14: instants up to five hours apart), the second judged as if alone. states = (inside, side, stage)",
             n_serv, n_off, if thorough { "all" } else { "every 25th of the" }, n_rend, n_life
         ),
         bounds: json!({"servers": n_serv, "offsets": n_off, "renderings": n_rend}),
